@@ -30,6 +30,7 @@ type CEnv struct {
 	done      func(n, t string) string // iterator invariants: entries already visited
 	parentEntry *State // closures: the state in which the enclosing function was entered (pfresh)
 	bound     map[string]bool // names bound by quantifiers / predicate parameters (never shadowed by locals)
+	rangeAllocs map[string]*ssa.Alloc // loop invariants: rangeindex (this loop's), rangeindexN (loop N's) hidden range counters
 }
 
 var (
@@ -349,6 +350,18 @@ func (e *CEnv) localShadows(name string) bool {
 // localVar finds the cell of a source variable by name among the executed Allocs of the frame.
 func (e *CEnv) localVar(name string) (Val, bool) {
 	var best *ssa.Alloc
+	if al := e.rangeAllocs[name]; al != nil {
+		if v, have := e.fr.vals[al]; have && v.Addr != nil {
+			if _, live := e.st.cells[v.Addr.CellID]; live || v.Addr.Kind != akLocal {
+				best = al
+			}
+		}
+		if best == nil {
+			return Val{}, false
+		}
+	} else if strings.HasPrefix(name, "rangeindex") && e.rangeAllocs != nil {
+		return Val{}, false
+	}
 	for _, b := range e.fr.fn.Blocks {
 		for _, in := range b.Instrs {
 			al, ok := in.(*ssa.Alloc)
@@ -356,6 +369,15 @@ func (e *CEnv) localVar(name string) (Val, bool) {
 				continue
 			}
 			v, have := e.fr.vals[al]
+			if have && v.Addr == nil && al.Heap && v.Term != "" {
+				// an escaping struct variable is an object on the heap: its value is read field by field
+				if _, ok := al.Type().(*types.Pointer).Elem().Underlying().(*types.Struct); ok {
+					if best == nil || al.Pos() > best.Pos() {
+						best = al
+					}
+				}
+				continue
+			}
 			if !have || v.Addr == nil {
 				continue
 			}
@@ -363,6 +385,9 @@ func (e *CEnv) localVar(name string) (Val, bool) {
 				if _, live := e.st.cells[v.Addr.CellID]; !live {
 					continue
 				}
+			}
+			if e.rangeAllocs[name] != nil {
+				continue
 			}
 			if best == nil || al.Pos() > best.Pos() {
 				best = al
@@ -373,6 +398,16 @@ func (e *CEnv) localVar(name string) (Val, bool) {
 		return Val{}, false
 	}
 	pv := e.fr.vals[best]
+	if pv.Addr == nil {
+		et := best.Type().(*types.Pointer).Elem()
+		st0 := et.Underlying().(*types.Struct)
+		var fs []string
+		for i := 0; i < st0.NumFields(); i++ {
+			name, sort := e.c.fieldHeap(et, i)
+			fs = append(fs, sel(e.c.heapGet(e.st, name, sort), pv.Term))
+		}
+		return Val{T: et, Term: e.c.structMk(et, fs)}, true
+	}
 	v := e.c.load(e.st, pv.Addr)
 	v.T = best.Type().(*types.Pointer).Elem()
 	return v, true
@@ -961,6 +996,60 @@ func (e *CEnv) callExpr(x *CExpr) (Val, error) {
 		}
 		c.smt.declareFun("str_hasprefix", []string{"Str", "Str"}, "Bool")
 		return Val{T: tBool, Term: app("str_hasprefix", as[0].Term, as[1].Term)}, nil
+	case "hasSuffix":
+		as, err := evalArgs()
+		if err != nil {
+			return Val{}, err
+		}
+		c.smt.declareFun("str_hassuffix", []string{"Str", "Str"}, "Bool")
+		return Val{T: tBool, Term: app("str_hassuffix", as[0].Term, as[1].Term)}, nil
+	case "inOld":
+		// inOld(k, m): the current value of k is a key of m as it was at function entry
+		if e.old == nil || len(x.Args) != 2 {
+			return Val{}, fmt.Errorf("inOld(key, map) needs an old state")
+		}
+		kv, err := e.eval(x.Args[0])
+		if err != nil {
+			return Val{}, err
+		}
+		n := e.sub()
+		n.st = e.old
+		n.inOld = true
+		mv, err := n.eval(x.Args[1])
+		if err != nil {
+			return Val{}, err
+		}
+		if _, ok := mv.T.Underlying().(*types.Map); !ok {
+			return Val{}, fmt.Errorf("inOld needs a map")
+		}
+		has, _ := c.mapRead(e.old, mv.T, mv.Term, kv.Term)
+		return Val{T: tBool, Term: has}, nil
+	case "join":
+		// join(s, sep): strings.Join of the current contents of the string slice s
+		as, err := evalArgs()
+		if err != nil {
+			return Val{}, err
+		}
+		if len(as) != 2 {
+			return Val{}, fmt.Errorf("join(slice, sep)")
+		}
+		c.smt.declareFun("str_join", []string{"(Array Int Str)", "Int", "Int", "Str"}, "Str")
+		name, sort := c.elemHeap(tStr)
+		h := c.heapGet(e.st, name, sort)
+		return Val{T: tStr, Term: app("str_join", sel(h, app("sl_base", as[0].Term)), app("sl_off", as[0].Term), app("sl_len", as[0].Term), as[1].Term)}, nil
+	case "final":
+		// final(e): e with parameter / local names denoting their current cells (a postcondition otherwise reads a
+		// parameter as its entry value)
+		n := e.sub()
+		n.useLocals = true
+		return n.eval(x.Args[0])
+	case "regexMatch":
+		as, err := evalArgs()
+		if err != nil {
+			return Val{}, err
+		}
+		c.smt.declareFun("re_match", []string{"Int", "Str"}, "Bool")
+		return Val{T: tBool, Term: app("re_match", as[0].Term, as[1].Term)}, nil
 	case "objOf":
 		as, err := evalArgs()
 		if err != nil {
@@ -1343,10 +1432,19 @@ func (e *CEnv) addLoc(ms *ModSet, loc *CExpr) error {
 	}
 	if loc.Op == "call" && loc.Name == "allMapsLike" {
 		// allMapsLike(T.f): every map of the type of field f of struct T (whole map heaps)
-		if len(loc.Args) != 1 || loc.Args[0].Op != "field" || loc.Args[0].Args[0].Op != "ident" {
+		if len(loc.Args) != 1 || loc.Args[0].Op != "field" {
 			return fmt.Errorf("allMapsLike(Type.field)")
 		}
-		st, err := e.resolveType(&CType{Kind: "name", Name: loc.Args[0].Args[0].Name})
+		tn := ""
+		switch q := loc.Args[0].Args[0]; {
+		case q.Op == "ident":
+			tn = q.Name
+		case q.Op == "field" && q.Args[0].Op == "ident":
+			tn = q.Args[0].Name + "." + q.Name // pkg.Type
+		default:
+			return fmt.Errorf("allMapsLike(Type.field)")
+		}
+		st, err := e.resolveType(&CType{Kind: "name", Name: tn})
 		if err != nil {
 			return err
 		}
